@@ -196,16 +196,29 @@ theorem posPart_sub (a b : Rat) : posPart (a - b) - posPart (b - a) = a - b := b
 theorem posPart_add_le (a b : Rat) (ha : 0 ≤ a) (hb : 0 ≤ b) : posPart (a - b) + posPart (b - a) ≤ a + b := by
   unfold posPart; split <;> split <;> linarith
 
+/-- the lifted `+` entry of `project_lambda` is the positive part of the pair's difference … -/
+theorem src_posOf (a b : Rat) : ProjectLambdaSrc.posOf a b = posPart (a - b) := by
+  unfold ProjectLambdaSrc.posOf posPart
+  split_ifs <;> linarith
+
+/-- … and the lifted `-` entry is the positive part of the opposite difference (this is where the data flow of the
+    source — `lambda_neg` negates the UNCLIPPED `lambda_pos` — and its signs enter the C08 proofs) -/
+theorem src_negOf (a b : Rat) : ProjectLambdaSrc.negOf a b = posPart (b - a) := by
+  unfold ProjectLambdaSrc.negOf posPart
+  split_ifs <;> linarith
+
 theorem project_nonneg (m : Nat) (lam : Nat → Rat) (j : Nat) : 0 ≤ project m lam j := by
-  unfold project; split <;> exact posPart_nonneg _
+  unfold project; split
+  · rw [src_posOf]; exact posPart_nonneg _
+  · rw [src_negOf]; exact posPart_nonneg _
 
 theorem project_lo (m : Nat) (lam : Nat → Rat) (j : Nat) (hj : j < m) :
-    project m lam j = posPart (lam j - lam (j + m)) := by simp [project, hj]
+    project m lam j = posPart (lam j - lam (j + m)) := by simp [project, hj, src_posOf]
 
 theorem project_hi (m : Nat) (lam : Nat → Rat) (j : Nat) :
     project m lam (m + j) = posPart (lam (m + j) - lam j) := by
   have : ¬ (m + j < m) := by omega
-  simp [project, this]
+  simp [project, this, src_negOf]
 
 /-- `project_lambda` does not change `λ·γ` when the `-` entries of `γ` are the negated `+` entries
     (true for every UtilityParity moment with ratio 1), so a best response to `λ` is a best response to
